@@ -27,9 +27,10 @@ const (
 	ndWriteErr = 1
 	ndDeath    = 2
 	ndNone     = 3
+	ndTorn     = 4 // label of logic violations only: the history contains a torn signer file
 )
 
-var ndNames = []string{"durable", "write-error", "process-death", "none"}
+var ndNames = []string{"durable", "write-error", "process-death", "none", "torn-file"}
 
 type entry struct {
 	HRS int
@@ -54,6 +55,7 @@ type obs struct {
 	failFired    bool
 	diedInCall   bool
 	restartAfter bool
+	tornRestart  bool // the host crashed after the request, the signer file was left torn, the node was started again
 	durable      bool
 	why          string
 	terminal     []viol // panic / failed restart: the host cannot continue
@@ -66,6 +68,7 @@ type sim struct {
 	ledger    []entry
 	usedDeath bool
 	usedFail  bool
+	usedTear  bool
 	stopped   bool
 	log       []string
 
@@ -131,7 +134,7 @@ func (s *sim) createFile(fault string) (err error) {
 // reset builds the start state of a case.
 func (s *sim) reset(initFault string) []viol {
 	s.cleanDir()
-	s.pv, s.ledger, s.usedDeath, s.usedFail, s.stopped, s.log = nil, nil, false, false, false, nil
+	s.pv, s.ledger, s.usedDeath, s.usedFail, s.usedTear, s.stopped, s.log = nil, nil, false, false, false, false, nil
 	if initFault != "" {
 		s.createFile(initFault)
 		// The node is started on whatever is there.  Nothing has ever been signed,
@@ -213,10 +216,12 @@ func (s *sim) durable(r *reqSpec) (bool, string) {
 	return false, fmt.Sprintf("the file on disk holds %s (%s, bytes of %s)", what, hrsString(dh), s.c.bytesName(d.LastSignBytes))
 }
 
-func faultLabel(usedFail, usedDeath bool) int {
+func faultLabel(usedFail, usedTear, usedDeath bool) int {
 	switch {
 	case usedFail:
 		return ndWriteErr
+	case usedTear:
+		return ndTorn
 	case usedDeath:
 		return ndDeath
 	}
@@ -315,8 +320,9 @@ func (s *sim) finish(cr *callRes, st step) (o obs) {
 	pt := faultPoint(st.Fault)
 	isCrash := strings.HasPrefix(st.Fault, "crash@")
 	isFail := strings.HasPrefix(st.Fault, "fail@")
+	isTear := strings.HasPrefix(st.Fault, "tear@")
 	want := st.Fault
-	if isCrash && pt == "done" {
+	if isCrash && pt == "done" || isTear {
 		want = "none"
 	}
 	if want != cr.armed || st.Req != cr.req {
@@ -386,6 +392,20 @@ func (s *sim) finish(cr *callRes, st step) (o obs) {
 		}
 	}
 	s.logf("%s %s -> %s (err=%v, write points hit: %v)", r.name, st.Fault, outcome, cr.err, cr.points)
+	if isTear {
+		// the request has completed; the host crashes, the signer file is left torn, the node is started again
+		o.tornRestart = true
+		s.tear(pt)
+		if v := s.restart(st.Fault); v != nil {
+			// refusing to start (error or panic) on a damaged file is the safe answer: nothing more is signed
+			outcome += "/refuses-to-start"
+			s.stopped = true
+			s.logf("  host crash, signer file torn (%s); restart: %s", pt, v.Sig["kind"])
+		} else {
+			outcome += "/started-on-torn-file"
+			s.logf("  host crash, signer file torn (%s); restart: loaded %s", pt, s.c.tuple(s.pv))
+		}
+	}
 	if o.diedInCall || st.Restart {
 		o.restartAfter = !o.diedInCall
 		after := st.Fault
@@ -406,7 +426,7 @@ func (s *sim) finish(cr *callRes, st step) (o obs) {
 }
 
 func armedOf(fault string) string {
-	if fault == "crash@done" {
+	if fault == "crash@done" || strings.HasPrefix(fault, "tear@") {
 		return "none"
 	}
 	return fault
@@ -448,7 +468,7 @@ func (s *sim) judge(ri int, o obs) []viol {
 				// no fault in this step: either the signer's memory ran ahead of the file because an
 				// earlier write error was swallowed, or the logic itself releases without a record
 				// (a process death cannot make memory and file diverge: the memory is discarded)
-				nd = faultLabel(s.usedFail, false)
+				nd = faultLabel(s.usedFail, false, false)
 			}
 			vs = append(vs, viol{Sig: mkSig("released-without-durable-record", nd, "none"),
 				Detail: fmt.Sprintf("signature for %s left the signer (%s) but %s", r.name, how, o.why)})
@@ -466,7 +486,7 @@ func (s *sim) judge(ri int, o obs) []viol {
 					vs = append(vs, viol{Sig: mkSig("released-without-durable-record", e.ND, "conflicting-signatures"),
 						Detail: fmt.Sprintf("conflicting signatures released for %s: earlier %s (left without a durable record: %s), now %s", hrsString(r.hrs), reqs[e.Req].name, ndNames[e.ND], r.name)})
 				} else {
-					vs = append(vs, viol{Sig: mkSig("conflicting-signatures", faultLabel(s.usedFail, s.usedDeath), "none"),
+					vs = append(vs, viol{Sig: mkSig("conflicting-signatures", faultLabel(s.usedFail, s.usedTear, s.usedDeath), "none"),
 						Detail: fmt.Sprintf("conflicting signatures released for %s: earlier %s (durably recorded), now %s", hrsString(r.hrs), reqs[e.Req].name, r.name)})
 				}
 				break
@@ -496,7 +516,7 @@ func (s *sim) judge(ri int, o obs) []viol {
 					vs = append(vs, viol{Sig: mkSig("released-without-durable-record", e.ND, "hrs-regression"),
 						Detail: fmt.Sprintf("signed %s after having released %s (which left without a durable record: %s)", r.name, hrsString(max), ndNames[e.ND])})
 				} else {
-					vs = append(vs, viol{Sig: mkSig("hrs-regression", faultLabel(s.usedFail, s.usedDeath), "none"),
+					vs = append(vs, viol{Sig: mkSig("hrs-regression", faultLabel(s.usedFail, s.usedTear, s.usedDeath), "none"),
 						Detail: fmt.Sprintf("signed %s after having released %s (durably recorded)", r.name, hrsString(max))})
 				}
 			}
@@ -508,7 +528,22 @@ func (s *sim) judge(ri int, o obs) []viol {
 	if o.restartAfter {
 		s.usedDeath = true
 	}
+	if o.tornRestart {
+		s.usedTear = true
+	}
 	return vs
+}
+
+// tear damages the signer file itself (leftovers untouched).
+func (s *sim) tear(pattern string) {
+	b, err := ioutil.ReadFile(s.w.path)
+	if err != nil {
+		core.Fatal("tear: %v", err)
+	}
+	if err := ioutil.WriteFile(s.w.path, torn(b, pattern), 0600); err != nil {
+		core.Fatal("tear: %v", err)
+	}
+	s.dirView = nil
 }
 
 func (s *sim) step(st step) (obs, []viol) {
@@ -589,7 +624,7 @@ func (s *sim) filesKey() string {
 	var b strings.Builder
 	base := filepath.Base(s.w.path)
 	dir := s.view()
-	main := s.c.fileInfo(s.w.path, dir, base)
+	main := s.c.fileInfo(s.w.probe, dir, base)
 	switch {
 	case main.missing:
 		b.WriteString(" | file=missing")
@@ -607,7 +642,7 @@ func (s *sim) filesKey() string {
 		switch n {
 		case base:
 		case base + ".bak", base + ".new":
-			d := s.c.fileInfo(filepath.Join(s.w.dir, n), dir, n)
+			d := s.c.fileInfo(s.w.probe, dir, n)
 			rel := "unloadable"
 			switch {
 			case !d.ok:
@@ -668,7 +703,12 @@ func (c *ctx) fileInfo(path string, dir map[string][]byte, name string) finfo {
 	if v, ok := finfoCache.Load(string(content)); ok {
 		return v.(finfo)
 	}
+	// The summary describes this content alone: it is loaded from a directory that holds nothing else,
+	// so that whatever a loader may do with neighbouring files (.bak, .new) cannot leak into it.
 	fi := finfo{}
+	if err := ioutil.WriteFile(path, content, 0600); err != nil {
+		core.Fatal("probe file: %v", err)
+	}
 	if d := c.loadFile(path); d != nil {
 		fi.ok, fi.tuple, fi.hrs = true, c.tuple(d), hrsOfPV(d)
 	} else {
